@@ -29,4 +29,6 @@ mod ntt;
 mod polynomial;
 mod prng;
 pub mod topology;
+#[cfg(feature = "verif-hooks")]
+pub mod verif_hooks;
 pub mod vdaf;
